@@ -3,6 +3,7 @@ Steps are generated from (and mirrored on) the independent TextModel, so every h
 import itertools, random
 from bounded import oracle, universe
 
+TAGTYPE = {int: "i", float: "f", str: "Z"}
 NAMED1 = ("S", "P")
 NAMED2 = ("S", "E", "G", "O", "U")
 ANON = {"gfa1": ("L", "C"), "gfa2": ("E", "G", "F")}
@@ -20,7 +21,13 @@ def legal_steps(tm, version, present_ids, with_tags=False):
             if version == "gfa2" and r.rt in ("E", "G", "O", "U") and not any(m == nm for x in tm.recs for m, _ in tm.mentions(x)):
                 steps.append(("rename", nm, "*"))          # an optional identifier can be dropped when nothing mentions it
             if with_tags and r.rt == "S":
-                steps.append(("settag", nm, "xy", 5))
+                # a tag keeps its datatype while it exists; a deleted tag is as if never present (the next value decides the datatype)
+                for tag in (("xy", "kl") if nm == "D" else ("xy",)):
+                    for v in (5, 1.5, "ab"):
+                        if tag not in r.tags or r.tags[tag][0] == TAGTYPE[type(v)]:
+                            steps.append(("settag", nm, tag, v))
+                    if tag in r.tags:
+                        steps.append(("deltag", nm, tag))
                 if "RC" in r.tags:
                     steps.append(("deltag", nm, "RC"))
         elif r.rt in ANON[version]:
@@ -55,7 +62,7 @@ def apply_model(tm, step, present_ids):
     elif op == "add":
         tm.add(oracle.tokenize(step[1], tm.version))
     elif op == "settag":
-        r = tm.find(step[1]); r.tags[step[2]] = ("i", str(step[3]))
+        r = tm.find(step[1]); r.tags[step[2]] = (TAGTYPE[type(step[3])], str(step[3]))
     elif op == "deltag":
         r = tm.find(step[1]); r.tags.pop(step[2], None)
     texts = {r.text() for r in tm.recs}
